@@ -32,6 +32,23 @@ func streamKeyconv() {
 	for _, k := range []string{"E#", "zz", "G#", ""} {
 		cases = append(cases, kc{k, "d"})
 	}
+	// commands of every even length up to 4096 that cancel out, from a key with two spellings: whatever is done to
+	// the command in pieces (windows, buffers) must not lose a step or a spelling at a boundary
+	for n := 2; n <= 4096; n += 2 {
+		unit := []string{"ds", "sd", "pp", "rr"}[(n/2)%4]
+		cases = append(cases, kc{[]string{"Cb", "F#", "Db", "D#m"}[(n/2)%4], strings.Repeat(unit, n/2)})
+	}
+	// long runs of one step in one direction (more than one turn of the circle), alone and between other steps
+	for _, n := range []int{13, 14, 23, 24, 25, 26, 35, 37, 49, 61, 100, 121} {
+		for _, c := range []string{"s", "d"} {
+			cases = append(cases, kc{keys28[r.Intn(28)], strings.Repeat(c, n)}, kc{keys28[r.Intn(28)], "p" + strings.Repeat(c, n) + "r"},
+				kc{keys28[r.Intn(28)], strings.Repeat("d", 3) + strings.Repeat(c, n) + "ds"})
+		}
+	}
+	// commands that are not made of the four letters
+	for _, c := range []string{"ép", "p♯d", "é", "pé", "日本dd", "d\xffp", "dx", "D", "d d"} {
+		cases = append(cases, kc{"C", c})
+	}
 	results := make([]string, len(cases))
 	parallel(len(cases), func(i int) {
 		c := cases[i]
